@@ -21,9 +21,16 @@ func NewPoolAllocator(rangeStart, rangeEnd netip.Addr, excludeAddrs []netip.Addr
 	for _, addr := range excludeAddrs {
 		excluded[addr.Unmap()] = true
 	}
+	rangeStart, rangeEnd = rangeStart.Unmap(), rangeEnd.Unmap()
+	if rangeStart.BitLen() != rangeEnd.BitLen() {
+		// Range ends of different address families: no address lies in such a
+		// range. (Compare orders every IPv4 address below every IPv6 address, so
+		// walking from an IPv4 start towards an IPv6 end would never stop.)
+		rangeStart, rangeEnd = netip.Addr{}, netip.Addr{}
+	}
 	a := &PoolAllocator{
-		rangeStart: rangeStart.Unmap(),
-		rangeEnd:   rangeEnd.Unmap(),
+		rangeStart: rangeStart,
+		rangeEnd:   rangeEnd,
 		excluded:   excluded,
 		leases:     make(map[netip.Addr]string),
 		ascending:  true,
@@ -34,7 +41,10 @@ func NewPoolAllocator(rangeStart, rangeEnd netip.Addr, excludeAddrs []netip.Addr
 
 func (a *PoolAllocator) buildFreeList() {
 	var addrs []netip.Addr
-	for addr := a.rangeStart; addr.Compare(a.rangeEnd) <= 0; addr = addr.Next() {
+	// Next() of the last address of a family is the zero Addr, which Compare orders
+	// below everything: without the IsValid test a range ending at 255.255.255.255
+	// (or ffff:...:ffff) never terminates.
+	for addr := a.rangeStart; addr.IsValid() && addr.Compare(a.rangeEnd) <= 0; addr = addr.Next() {
 		if a.excluded[addr] {
 			continue
 		}
